@@ -72,20 +72,21 @@ class OpenQLCircuitFactoryManager(IOpenQLCircuitFactory):
         kernel_uuid: str = f"kernel_{circuit_uuid[:8]}"
         if circuit_id is not None:
             program_uuid = circuit_id
-        sub_program_uuid: str = f"sub_{program_uuid}"
 
         result_program: ql.Program = PlatformManager.construct_program(name=program_uuid)
         kernel: ql.Kernel = PlatformManager.construct_kernel(name=kernel_uuid)
+        result_program.add_kernel(self._extend_kernel(process_circuit, kernel))
+        return result_program
 
+    def _extend_kernel(self, process_circuit: ICircuitCompositeOperation, kernel: ql.Kernel) -> ql.Kernel:
+        """:return: Kernel extended with all operations of (sub-)circuit in listing order, sub-circuits expanded in place."""
         for operation_node in process_circuit._circuit_graph.get_node_iterator():
             operation: ICircuitOperation = operation_node.operation
 
             # Recursion, if operation is a composite operation
             if isinstance(operation, ICircuitCompositeOperation):
-                inner_program: ql.Program = self.construct(operation, circuit_id=sub_program_uuid)
-                # TODO: deal with repetitions
                 for i in range(operation.nr_of_repetitions):
-                    result_program.add_program(inner_program)
+                    kernel = self._extend_kernel(operation, kernel)
 
             # Guard clause, if request not supported raise exception
             operation_supported: bool = self.contains(factory_key=type(operation))
@@ -95,8 +96,7 @@ class OpenQLCircuitFactoryManager(IOpenQLCircuitFactory):
             # Extend kernel
             kernel = self.factory_lookup[type(operation)].construct(operation, kernel)
 
-        result_program.add_kernel(kernel)
-        return result_program
+        return kernel
 
     def contains(self, factory_key: Type[ICircuitOperation]) -> bool:
         """:return: Boolean, whether factory key is included in the manager."""
